@@ -6,7 +6,7 @@
 (* the specification's type tables, obeys the sanity rules of its context  *)
 (* and re-parses from its own text under the default rules.                *)
 (***************************************************************************)
-EXTENDS Validation, Json, IOUtils
+EXTENDS Validation, Json, IOUtils, TrCompile
 
 ASSUME TLCSet(1, ndJsonDeserialize(IOEnv.TRACE))
 Rec == TLCGet(1)
@@ -86,11 +86,24 @@ JudgeTr(ev, j, o) ==
          ((o.ik \in w.sigs) \/ (\E q \in 1..Len(o.leaves) : Spendable(o.leaves[q].ast, w, "tap"))) = PEval(P, w))
       \/ Report("C08", "compilation_changed_spending_semantics", ev, j, o.kind))
 
+\* L2 conformance: the taproot layout of compile_tr (TrCompile.tla): internal key, number of leaves,
+\* and a depth list some Huffman tie-break produces
+InsAsc(s, x) == LET RECURSIVE I(_)
+                    I(q) == IF q > Len(s) THEN <<x>> ELSE IF x <= s[q] THEN <<x>> \o SubSeq(s, q, Len(s)) ELSE <<s[q]>> \o I(q + 1)
+                IN I(1)
+RECURSIVE AscDepths(_, _)
+AscDepths(ls, q) == IF q > Len(ls) THEN <<>> ELSE InsAsc(AscDepths(ls, q + 1), ls[q].depth)
+JudgeLayout(ev, j, o) ==
+  IsWide(ev.pol) \/ o.kind \notin {"tr", "tr_desc"} \/
+  \A lay \in {TrLayout(ev.pol)} :
+    (o.ik = (IF lay.ik = 0 THEN 21 ELSE lay.ik) /\ Len(o.leaves) = lay.nleaves /\ AscDepths(o.leaves, 1) \in lay.depths)
+    \/ Report("INFO", "drift_l2_trcompile", ev, j, <<o.kind, o.ik, lay.ik, AscDepths(o.leaves, 1), lay.depths>>)
+
 JudgeEvent(ev) ==
   \A j \in 1..Len(ev.outs) :
     LET o == ev.outs[j] IN
     /\ (o.st # "panic" \/ Report("C11", "compiler_panic", ev, j, o.kind))
-    /\ (o.st # "ok" \/ (IF o.kind \in {"ms", "d_bare", "d_sh", "d_wsh", "d_shwsh"} THEN JudgeMs(ev, j, o) ELSE JudgeTr(ev, j, o)))
+    /\ (o.st # "ok" \/ (IF o.kind \in {"ms", "d_bare", "d_sh", "d_wsh", "d_shwsh"} THEN JudgeMs(ev, j, o) ELSE JudgeTr(ev, j, o) /\ JudgeLayout(ev, j, o)))
 
 Inv == i > 0 => JudgeEvent(Rec[i])
 Post == PrintT("TRACE_DONE " \o ToJson(<<Len(Rec), TLCGet("stats").distinct>>))
